@@ -101,6 +101,10 @@ def gen_cases(rng, tier):
     A, C = spec.rfloat(rng, 100.0, 9000.0), spec.rfloat(rng, 0.5, 120.0)
     if i % 6 == 2:
       rd, rm, ra = 1, 2, rng.choice([3, 4])      # whole-number radii of type int
+    if i % 12 == 8:
+      # whole-number radii of type int whose fifth power no longer fits a machine integer (a table in other length units):
+      # the coefficient matrix must be one of floats
+      rd, rm, ra = rng.choice([(8000, 9000, 10000), (7200, 7400, 7600), (20000, 30000, 40000)])
     unit = None
     if i % 5 == 3:
       unit = rng.choice([-25, -19, -16, -12, 9, 15])
